@@ -56,7 +56,7 @@ def list_probe(rng):
     op = rng.choice(['first', 'second', 'last', 'rest', 'length', 'in', 'in2', 'plus', 'plus_elem', 'append', 'append_list', 'map_fn',
                      'map_op', 'fold_op', 'fold_fn', 'zip', 'range', 'max', 'min', 'average', 'sum', 'slice', 'slice1', 'reverse',
                      'filter', 'partition', 'sort', 'list', 'bracket_slice', 'maxstr', 'fold_list', 'filter_all', 'fold_count', 'fold_init_sym',
-                     'map_op_sym', 'map_op_list', 'fold_op_list'])
+                     'map_op_sym', 'map_op_list', 'fold_op_list', 'partition_nested', 'filter_nested'])
     l = gen_list(rng)
     ints = gen_list(rng, 'int')
     q = "'" + lit(l)
@@ -135,7 +135,7 @@ def list_probe(rng):
         l2 = gen_list(rng)
         return f"(zip {q} '{lit(l2)})", [[a, b] for a, b in zip(l, l2)], [l, l2]
     if op == 'range':
-        a, b, s = rng.randrange(-2, 4), rng.randrange(-2, 9), rng.choice([1, 2, -1, 3])
+        a, b, s = rng.randrange(-2, 4), rng.randrange(-2, 9), rng.choice([1, 2, -1, 3, -2, -3])
         form = rng.choice([1, 2, 3])
         if form == 1:
             return f'(range {b})', list(range(b)), []
@@ -169,6 +169,14 @@ def list_probe(rng):
     if op == 'partition':
         k = rng.randrange(-1, 6)
         return f'(partition (fn [x] (< x {k})) {qi})', [[x for x in ints if x < k], [x for x in ints if not x < k]], [ints]
+    if op in ('partition_nested', 'filter_nested'):
+        # elements that are lists themselves (the empty list included) stay single elements of their half (seed C14-j)
+        nl = [gen_list(rng, 'int') for _ in range(rng.randrange(0, 6))]
+        k = rng.randrange(0, 4)
+        yes, no = [x for x in nl if len(x) > k], [x for x in nl if not len(x) > k]
+        if op == 'filter_nested':
+            return f"(filter (fn [x] (> (length x) {k})) '{lit(nl)})", yes, [nl]
+        return f"(partition (fn [x] (> (length x) {k})) '{lit(nl)})", [yes, no], [nl]
     if op == 'sort':
         return f'(sort {qi})', sorted(ints), [ints]
     return '(list %s)' % ' '.join(lit(x) if not isinstance(x, (list, Sym)) else "'" + lit(x) for x in l), l, [l]
